@@ -8,7 +8,9 @@
 (* Processes: enders e (span.End), mutators m (one call that writes two parts:  *)
 (* SetAttributes(k1,k2), AddEvent(name,attr), SetStatus(code,desc) ...), child  *)
 (* starters c (tracer.Start with the span as parent -> addChild), readers r     *)
-(* (IsRecording).  One span, the processors Processors registered beforehand.   *)
+(* (IsRecording), registrars g (TracerProvider.RegisterSpanProcessor while the  *)
+(* span is in use; End reads the list through an atomic pointer).  One span,    *)
+(* the processors Processors registered beforehand.                             *)
 (*                                                                              *)
 (* Shape = "window"   : the code as pinned: with execution tracing on, End      *)
 (*                      unlocks mu around executionTracerTaskEnd and relocks    *)
@@ -20,7 +22,8 @@
 EXTENDS Naturals, Sequences, FiniteSets, TLC
 
 CONSTANTS Enders, Mutators, Children, Readers,
-          Processors,   \* sequence of processor names (registration order)
+          Registrars,   \* sequence of processes that each register one more processor while the span is in use
+          Processors,   \* sequence of processor names registered before the span started
           Shared,       \* subset of Mutators whose parts live in storage the snapshot aliases (attributes)
           ExecTracer,   \* BOOLEAN: span started while runtime/trace was on (executionTracerTaskEnd # nil)
           Shape,        \* "window" | "markfirst"
@@ -34,13 +37,18 @@ VARIABLES mu,        \* span lock holder: "none" | process
           esnap,     \* ender -> the snapshot it built ("none" before)
           eprocs,    \* ender -> processors it still has to call
           rval,      \* reader -> what IsRecording read
+          plist,     \* the provider's processor list (read through an atomic pointer)
           win,       \* enders between a passed recording check and their EMark (history, for D1)
           winOverlap,\* two enders were in `win` at the same time (history, for D1)
           mon
-vars == <<mu, endTime, parts, childCount, pc, esnap, eprocs, rval, win, winOverlap, mon>>
+vars == <<mu, endTime, parts, childCount, pc, esnap, eprocs, rval, plist, win, winOverlap, mon>>
 
-Procs == Enders \cup Mutators \cup Children \cup Readers
+RegSet == {Registrars[i] : i \in 1..Len(Registrars)}
+Procs == Enders \cup Mutators \cup Children \cup Readers \cup RegSet
 ProcSet == {Processors[i] : i \in 1..Len(Processors)}
+(* the processor registered by the i-th registrar is named after its position in the final list *)
+Late(g) == LET i == CHOOSE j \in 1..Len(Registrars) : Registrars[j] = g IN "p" \o ToString(Len(Processors) + i)
+LateSet == {Late(g) : g \in RegSet}
 PartsOf(m) == {<<m, 1>>, <<m, 2>>}
 NoSnap == [et |-> "none", copied |-> {}, child |-> 0]
 (* what a processor reads from a snapshot now: copied parts + the aliased storage *)
@@ -50,11 +58,12 @@ Init ==
   /\ mu = "none" /\ endTime = "none" /\ parts = {} /\ childCount = 0
   /\ pc = [x \in Procs |-> "idle"]
   /\ esnap = [e \in Enders |-> NoSnap] /\ eprocs = [e \in Enders |-> <<>>]
-  /\ rval = [r \in Readers |-> FALSE] /\ win = {} /\ winOverlap = FALSE
+  /\ rval = [r \in Readers |-> FALSE] /\ plist = Processors /\ win = {} /\ winOverlap = FALSE
   /\ mon = [endCalled |-> FALSE, endOpen |-> 0, endRet |-> FALSE,
             called |-> {}, mustIn |-> {}, mustOut |-> {},
             childMustIn |-> 0, childEligible |-> 0, rAfter |-> {},
-            onEnd |-> [p \in ProcSet |-> 0], ets |-> {}, views |-> {}, taskEnds |-> 0, bad |-> {}]
+            must |-> ProcSet,     \* processors whose registration returned before any End call
+            onEnd |-> [p \in ProcSet \cup LateSet |-> 0], ets |-> {}, views |-> {}, taskEnds |-> 0, bad |-> {}]
 
 Go(x, l) == pc' = [pc EXCEPT ![x] = l]
 Lock(x) == mu = "none" /\ mu' = x
@@ -63,41 +72,41 @@ Unlock(x) == mu = x /\ mu' = "none"
 (* ------------------------------------------------------------------ enders *)
 ECall(e) == /\ pc[e] = "idle" /\ Go(e, "lock")
             /\ mon' = [mon EXCEPT !.endCalled = TRUE, !.endOpen = @ + 1]
-            /\ UNCHANGED <<mu, endTime, parts, childCount, esnap, eprocs, rval, win, winOverlap>>
+            /\ UNCHANGED <<plist, mu, endTime, parts, childCount, esnap, eprocs, rval, win, winOverlap>>
 ELock(e) == /\ pc[e] = "lock" /\ Lock(e) /\ Go(e, "check")
-            /\ UNCHANGED <<endTime, parts, childCount, esnap, eprocs, rval, win, winOverlap, mon>>
+            /\ UNCHANGED <<plist, endTime, parts, childCount, esnap, eprocs, rval, win, winOverlap, mon>>
 ECheck(e) == /\ pc[e] = "check"
              /\ IF endTime # "none"
-                  THEN Go(e, "unlockign") /\ UNCHANGED <<win, winOverlap>>
+                  THEN Go(e, "unlockign") /\ UNCHANGED <<plist, win, winOverlap>>
                   ELSE /\ Go(e, IF ExecTracer /\ Shape = "window" THEN "unlockT" ELSE "mark")
                        /\ win' = win \cup {e} /\ winOverlap' = (winOverlap \/ win # {})
-             /\ UNCHANGED <<mu, endTime, parts, childCount, esnap, eprocs, rval, mon>>
+             /\ UNCHANGED <<plist, mu, endTime, parts, childCount, esnap, eprocs, rval, mon>>
 EUnlockIgnored(e) == /\ pc[e] = "unlockign" /\ Unlock(e) /\ Go(e, "ret")
-                     /\ UNCHANGED <<endTime, parts, childCount, esnap, eprocs, rval, win, winOverlap, mon>>
+                     /\ UNCHANGED <<plist, endTime, parts, childCount, esnap, eprocs, rval, win, winOverlap, mon>>
 EUnlockForTask(e) == /\ pc[e] = "unlockT" /\ Unlock(e) /\ Go(e, "task")
-                     /\ UNCHANGED <<endTime, parts, childCount, esnap, eprocs, rval, win, winOverlap, mon>>
+                     /\ UNCHANGED <<plist, endTime, parts, childCount, esnap, eprocs, rval, win, winOverlap, mon>>
 ETaskEnd(e) == /\ pc[e] \in {"task", "task2"}
                /\ Go(e, IF pc[e] = "task" THEN "relock" ELSE "procs")
                /\ mon' = [mon EXCEPT !.taskEnds = @ + 1]
-               /\ UNCHANGED <<mu, endTime, parts, childCount, esnap, eprocs, rval, win, winOverlap>>
+               /\ UNCHANGED <<plist, mu, endTime, parts, childCount, esnap, eprocs, rval, win, winOverlap>>
 ERelock(e) == /\ pc[e] = "relock" /\ Lock(e) /\ Go(e, "mark")     \* no re-check of isRecording here
-              /\ UNCHANGED <<endTime, parts, childCount, esnap, eprocs, rval, win, winOverlap, mon>>
+              /\ UNCHANGED <<plist, endTime, parts, childCount, esnap, eprocs, rval, win, winOverlap, mon>>
 EMark(e) == /\ pc[e] = "mark" /\ endTime' = e /\ Go(e, "unlock") /\ win' = win \ {e}
-            /\ UNCHANGED <<mu, parts, childCount, esnap, eprocs, rval, winOverlap, mon>>
+            /\ UNCHANGED <<plist, mu, parts, childCount, esnap, eprocs, rval, winOverlap, mon>>
 EUnlock(e) == /\ pc[e] = "unlock" /\ Unlock(e)
               /\ Go(e, IF ExecTracer /\ Shape = "markfirst" THEN "task2" ELSE "procs")
-              /\ UNCHANGED <<endTime, parts, childCount, esnap, eprocs, rval, win, winOverlap, mon>>
-EGetProcs(e) == /\ pc[e] = "procs" /\ eprocs' = [eprocs EXCEPT ![e] = Processors]
-                /\ Go(e, IF Processors = <<>> THEN "ret" ELSE "snaplock")
-                /\ UNCHANGED <<mu, endTime, parts, childCount, esnap, rval, win, winOverlap, mon>>
+              /\ UNCHANGED <<plist, endTime, parts, childCount, esnap, eprocs, rval, win, winOverlap, mon>>
+EGetProcs(e) == /\ pc[e] = "procs" /\ eprocs' = [eprocs EXCEPT ![e] = plist]
+                /\ Go(e, IF plist = <<>> THEN "ret" ELSE "snaplock")
+                /\ UNCHANGED <<plist, mu, endTime, parts, childCount, esnap, rval, win, winOverlap, mon>>
 ESnapLock(e) == /\ pc[e] = "snaplock" /\ Lock(e) /\ Go(e, "snapcopy")
-                /\ UNCHANGED <<endTime, parts, childCount, esnap, eprocs, rval, win, winOverlap, mon>>
+                /\ UNCHANGED <<plist, endTime, parts, childCount, esnap, eprocs, rval, win, winOverlap, mon>>
 ESnapCopy(e) == /\ pc[e] = "snapcopy" /\ Go(e, "snapunlock")
                 /\ esnap' = [esnap EXCEPT ![e] = [et |-> endTime, copied |-> {x \in parts : x[1] \notin Shared},
                                                    child |-> childCount]]
-                /\ UNCHANGED <<mu, endTime, parts, childCount, eprocs, rval, win, winOverlap, mon>>
+                /\ UNCHANGED <<plist, mu, endTime, parts, childCount, eprocs, rval, win, winOverlap, mon>>
 ESnapUnlock(e) == /\ pc[e] = "snapunlock" /\ Unlock(e) /\ Go(e, "onend")
-                  /\ UNCHANGED <<endTime, parts, childCount, esnap, eprocs, rval, win, winOverlap, mon>>
+                  /\ UNCHANGED <<plist, endTime, parts, childCount, esnap, eprocs, rval, win, winOverlap, mon>>
 (* the processor is handed the snapshot: this is what the contract judges *)
 Torn(v) == \E m \in Mutators : PartsOf(m) \cap v # {} /\ ~(PartsOf(m) \subseteq v)
 Judge(m, p, s) ==
@@ -115,60 +124,70 @@ EOnEnd(e) == /\ pc[e] = "onend"
                                    !.bad = @ \cup Judge(mon, p, esnap[e])]
              /\ eprocs' = [eprocs EXCEPT ![e] = Tail(@)]
              /\ Go(e, IF Len(eprocs[e]) = 1 THEN "ret" ELSE "onend")
-             /\ UNCHANGED <<mu, endTime, parts, childCount, esnap, rval, win, winOverlap>>
+             /\ UNCHANGED <<plist, mu, endTime, parts, childCount, esnap, rval, win, winOverlap>>
 ERet(e) == /\ pc[e] = "ret" /\ Go(e, "done")
            /\ mon' = [mon EXCEPT !.endOpen = @ - 1, !.endRet = TRUE,
-                        !.bad = @ \cup (IF mon.endOpen = 1 /\ \E p \in ProcSet : mon.onEnd[p] = 0
+                        !.bad = @ \cup (IF mon.endOpen = 1 /\ \E p \in mon.must : mon.onEnd[p] = 0
                                           THEN {"not-delivered"} ELSE {})]
-           /\ UNCHANGED <<mu, endTime, parts, childCount, esnap, eprocs, rval, win, winOverlap>>
+           /\ UNCHANGED <<plist, mu, endTime, parts, childCount, esnap, eprocs, rval, win, winOverlap>>
 
 (* ---------------------------------------------------------------- mutators *)
 MCall(m) == /\ pc[m] = "idle" /\ Go(m, "lock")
             /\ mon' = [mon EXCEPT !.called = @ \cup {m}, !.mustOut = IF mon.endRet THEN @ \cup {m} ELSE @]
-            /\ UNCHANGED <<mu, endTime, parts, childCount, esnap, eprocs, rval, win, winOverlap>>
+            /\ UNCHANGED <<plist, mu, endTime, parts, childCount, esnap, eprocs, rval, win, winOverlap>>
 MLock(m) == /\ pc[m] = "lock" /\ Lock(m) /\ Go(m, "check")
-            /\ UNCHANGED <<endTime, parts, childCount, esnap, eprocs, rval, win, winOverlap, mon>>
+            /\ UNCHANGED <<plist, endTime, parts, childCount, esnap, eprocs, rval, win, winOverlap, mon>>
 MCheck(m) == /\ pc[m] = "check" /\ Go(m, IF endTime = "none" THEN "apply1" ELSE "unlock")
-             /\ UNCHANGED <<mu, endTime, parts, childCount, esnap, eprocs, rval, win, winOverlap, mon>>
+             /\ UNCHANGED <<plist, mu, endTime, parts, childCount, esnap, eprocs, rval, win, winOverlap, mon>>
 MApply(m) == /\ pc[m] \in {"apply1", "apply2"}
              /\ parts' = parts \cup {<<m, IF pc[m] = "apply1" THEN 1 ELSE 2>>}
              /\ Go(m, IF pc[m] = "apply1" THEN "apply2" ELSE "unlock")
-             /\ UNCHANGED <<mu, endTime, childCount, esnap, eprocs, rval, win, winOverlap, mon>>
+             /\ UNCHANGED <<plist, mu, endTime, childCount, esnap, eprocs, rval, win, winOverlap, mon>>
 MUnlock(m) == /\ pc[m] = "unlock" /\ Unlock(m) /\ Go(m, "ret")
-              /\ UNCHANGED <<endTime, parts, childCount, esnap, eprocs, rval, win, winOverlap, mon>>
+              /\ UNCHANGED <<plist, endTime, parts, childCount, esnap, eprocs, rval, win, winOverlap, mon>>
 MRet(m) == /\ pc[m] = "ret" /\ Go(m, "done")
            /\ mon' = [mon EXCEPT !.mustIn = IF mon.endCalled THEN @ ELSE @ \cup {m}]
-           /\ UNCHANGED <<mu, endTime, parts, childCount, esnap, eprocs, rval, win, winOverlap>>
+           /\ UNCHANGED <<plist, mu, endTime, parts, childCount, esnap, eprocs, rval, win, winOverlap>>
 
 (* ---------------------------------------------------------- child starters *)
 CCall(c) == /\ pc[c] = "idle" /\ Go(c, "lock")
             /\ mon' = [mon EXCEPT !.childEligible = IF mon.endRet THEN @ ELSE @ + 1]
-            /\ UNCHANGED <<mu, endTime, parts, childCount, esnap, eprocs, rval, win, winOverlap>>
+            /\ UNCHANGED <<plist, mu, endTime, parts, childCount, esnap, eprocs, rval, win, winOverlap>>
 CLock(c) == /\ pc[c] = "lock" /\ Lock(c) /\ Go(c, "incr")
-            /\ UNCHANGED <<endTime, parts, childCount, esnap, eprocs, rval, win, winOverlap, mon>>
+            /\ UNCHANGED <<plist, endTime, parts, childCount, esnap, eprocs, rval, win, winOverlap, mon>>
 CIncr(c) == /\ pc[c] = "incr" /\ Go(c, "unlock")
             /\ childCount' = IF endTime = "none" THEN childCount + 1 ELSE childCount
-            /\ UNCHANGED <<mu, endTime, parts, esnap, eprocs, rval, win, winOverlap, mon>>
+            /\ UNCHANGED <<plist, mu, endTime, parts, esnap, eprocs, rval, win, winOverlap, mon>>
 CUnlock(c) == /\ pc[c] = "unlock" /\ Unlock(c) /\ Go(c, "ret")
-              /\ UNCHANGED <<endTime, parts, childCount, esnap, eprocs, rval, win, winOverlap, mon>>
+              /\ UNCHANGED <<plist, endTime, parts, childCount, esnap, eprocs, rval, win, winOverlap, mon>>
 CRet(c) == /\ pc[c] = "ret" /\ Go(c, "done")
            /\ mon' = [mon EXCEPT !.childMustIn = IF mon.endCalled THEN @ ELSE @ + 1]
-           /\ UNCHANGED <<mu, endTime, parts, childCount, esnap, eprocs, rval, win, winOverlap>>
+           /\ UNCHANGED <<plist, mu, endTime, parts, childCount, esnap, eprocs, rval, win, winOverlap>>
 
 (* ----------------------------------------------------------------- readers *)
 RCall(r) == /\ pc[r] = "idle" /\ Go(r, "lock")
             /\ mon' = [mon EXCEPT !.rAfter = IF mon.endRet THEN @ \cup {r} ELSE @]
-            /\ UNCHANGED <<mu, endTime, parts, childCount, esnap, eprocs, rval, win, winOverlap>>
+            /\ UNCHANGED <<plist, mu, endTime, parts, childCount, esnap, eprocs, rval, win, winOverlap>>
 RLock(r) == /\ pc[r] = "lock" /\ Lock(r) /\ Go(r, "read")
-            /\ UNCHANGED <<endTime, parts, childCount, esnap, eprocs, rval, win, winOverlap, mon>>
+            /\ UNCHANGED <<plist, endTime, parts, childCount, esnap, eprocs, rval, win, winOverlap, mon>>
 RRead(r) == /\ pc[r] = "read" /\ rval' = [rval EXCEPT ![r] = (endTime = "none")] /\ Go(r, "unlock")
-            /\ UNCHANGED <<mu, endTime, parts, childCount, esnap, eprocs, win, winOverlap, mon>>
+            /\ UNCHANGED <<plist, mu, endTime, parts, childCount, esnap, eprocs, win, winOverlap, mon>>
 RUnlock(r) == /\ pc[r] = "unlock" /\ Unlock(r) /\ Go(r, "ret")
-              /\ UNCHANGED <<endTime, parts, childCount, esnap, eprocs, rval, win, winOverlap, mon>>
+              /\ UNCHANGED <<plist, endTime, parts, childCount, esnap, eprocs, rval, win, winOverlap, mon>>
 RRet(r) == /\ pc[r] = "ret" /\ Go(r, "done")
            /\ mon' = [mon EXCEPT !.bad = @ \cup (IF r \in mon.rAfter /\ rval[r] THEN {"recording-after-end"} ELSE {})
                                            \cup (IF ~mon.endCalled /\ ~rval[r] THEN {"not-recording-before-end"} ELSE {})]
-           /\ UNCHANGED <<mu, endTime, parts, childCount, esnap, eprocs, rval, win, winOverlap>>
+           /\ UNCHANGED <<plist, mu, endTime, parts, childCount, esnap, eprocs, rval, win, winOverlap>>
+
+(* -------------------------------------------------------------- registrars *)
+(* TracerProvider.RegisterSpanProcessor: copy the list, append, store the pointer (one linearization point) *)
+GCall(g) == /\ pc[g] = "idle" /\ Go(g, "store")
+            /\ UNCHANGED <<mu, endTime, parts, childCount, esnap, eprocs, rval, plist, win, winOverlap, mon>>
+GStore(g) == /\ pc[g] = "store" /\ plist' = Append(plist, Late(g)) /\ Go(g, "ret")
+             /\ UNCHANGED <<mu, endTime, parts, childCount, esnap, eprocs, rval, win, winOverlap, mon>>
+GRet(g) == /\ pc[g] = "ret" /\ Go(g, "done")
+           /\ mon' = [mon EXCEPT !.must = IF mon.endCalled THEN @ ELSE @ \cup {Late(g)}]
+           /\ UNCHANGED <<mu, endTime, parts, childCount, esnap, eprocs, rval, plist, win, winOverlap>>
 
 EnderNext(e) == \/ ECall(e) \/ ELock(e) \/ ECheck(e) \/ EUnlockIgnored(e) \/ EUnlockForTask(e) \/ ETaskEnd(e)
                 \/ ERelock(e) \/ EMark(e) \/ EUnlock(e) \/ EGetProcs(e) \/ ESnapLock(e) \/ ESnapCopy(e)
@@ -176,6 +195,7 @@ EnderNext(e) == \/ ECall(e) \/ ELock(e) \/ ECheck(e) \/ EUnlockIgnored(e) \/ EUn
 MutNext(m) == MCall(m) \/ MLock(m) \/ MCheck(m) \/ MApply(m) \/ MUnlock(m) \/ MRet(m)
 ChildNext(c) == CCall(c) \/ CLock(c) \/ CIncr(c) \/ CUnlock(c) \/ CRet(c)
 ReadNext(r) == RCall(r) \/ RLock(r) \/ RRead(r) \/ RUnlock(r) \/ RRet(r)
+RegNext(g) == GCall(g) \/ GStore(g) \/ GRet(g)
 AllDone == \A x \in Procs : pc[x] = "done"
 Terminated == AllDone /\ UNCHANGED vars      \* so that TLC's deadlock check means: somebody is stuck
 Next == \/ Terminated
@@ -183,6 +203,7 @@ Next == \/ Terminated
         \/ \E m \in Mutators : MutNext(m)
         \/ \E c \in Children : ChildNext(c)
         \/ \E r \in Readers : ReadNext(r)
+        \/ \E g \in RegSet : RegNext(g)
 
 (* a call, once made, keeps running (the calls themselves are the environment's choice) *)
 Running(x) == pc[x] \notin {"idle", "done"}
@@ -190,6 +211,7 @@ Fairness == /\ \A e \in Enders : WF_vars(Running(e) /\ EnderNext(e))
             /\ \A m \in Mutators : WF_vars(Running(m) /\ MutNext(m))
             /\ \A c \in Children : WF_vars(Running(c) /\ ChildNext(c))
             /\ \A r \in Readers : WF_vars(Running(r) /\ ReadNext(r))
+            /\ \A g \in RegSet : WF_vars(Running(g) /\ RegNext(g))
 Spec == Init /\ [][Next]_vars
 FairSpec == Spec /\ Fairness
 
@@ -200,7 +222,7 @@ FairSpec == Spec /\ Fairness
 (* window; every other clause is unconditional.                                                           *)
 Known == IF AllowKnown /\ winOverlap THEN {"delivered-twice", "end-time-differs"} ELSE {}
 Contract == mon.bad \subseteq Known
-OnEndAtMostOnce == (~winOverlap) => \A p \in ProcSet : mon.onEnd[p] <= 1
+OnEndAtMostOnce == (~winOverlap) => \A p \in ProcSet \cup LateSet : mon.onEnd[p] <= 1
 TaskEndedOnce == (~winOverlap) => mon.taskEnds <= 1
 (* what a processor was handed never changes afterwards *)
 SnapshotStable == \A d \in mon.views : View(esnap[d.e]) = d.view
